@@ -8,7 +8,7 @@ from vf import tlc
 from vf.tlc import MachineryError
 
 SLUG_MEMBERS = {
-    'lower': 'azq', 'upper': 'AZQ', 'digit': '059', 'underscore': '_', 'hyphen': '-', 'space': ' ', 'tab': '\t\n',
+    'lower': 'azq', 'upper': 'AZQ', 'digit': '059', 'underscore': '_', 'hyphen': '-', 'space': ' ', 'tab': '\t\n\r\x0b\x0c\x1c\x1d\x1e\x1f',
     'nbsp': '  ', 'punct': '!.,/#@(*', 'accented': 'éÜñÇ', 'compat_letter': 'ﬁⅨᴬ',
     'compat_digit': '①²⁵', 'nonascii_other': '中Ж→€',
 }
